@@ -62,6 +62,10 @@ def prot_program(seed, mode=None, size=4):
         ss.append(p.emit([p.str("r"), p.call(p.id("pcall"), [p.func([], p.block([loop, p.ret([p.str("loop-done")])]))])]))
     elif mode == "gopcall":
         ss.append(p.emit([p.str("r"), p.call(p.id("body"), [])]))
+    # control-skeleton snapshots right before the protected statement and right after it,
+    # at the same place of the same activation (no local is declared in between)
+    ss.insert(len(ss) - 1, p.callstat(p.call(p.id("snap"), [p.num(1)])))
+    ss.append(p.callstat(p.call(p.id("snap"), [p.num(1)])))
     # ---- state afterwards and later behaviour
     ss.append(p.emit([p.str("after"), p.id("a"), p.id("b"), p.id("g1"), p.index(p.id("t"), p.num(1)), p.index(p.id("t"), p.num(2)), p.index(p.id("t"), p.num(3))]))
     ss.append(p.localfunction("later", p.func(["x"], p.block([p.local(["y"], [p.bin("*", p.id("x"), p.num(2))]), p.ret([p.id("y"), p.id("g1")])]))))
